@@ -110,6 +110,18 @@ NEEDS = {
     "C18g": "a (host, port) registered under two or more names, then UNREGISTER: any() stops at the first name that held it, the other names keep listing it",
     "C19g": "a str containing an unpaired surrogate anywhere in a message: error handler changed from surrogatepass to surrogateescape - U+DC80..DCFF go out as raw bytes, other lone surrogates make dump raise, conforming bytes decode to other text",
     "C20g": "the same remote directory downloaded a second time in one process: a 'visited' set used as a mutable default argument makes the second download return at once",
+    "C01h": "a callee raising an exception whose data lives outside args and outside the instance dict (OSError.errno/filename, StopIteration.value, SystemExit.code), caught further up and read there: vinegar.dump collects attributes from val.__dict__ only",
+    "C04h": "a frozenset with two or more members that have no total order (mixed types, complex numbers, None/Ellipsis, tuples tying up to an unorderable position): members sorted 'for reproducible bytes' - dumpable() says yes, dump() raises TypeError",
+    "C05h": "one packet whose on-wire payload is exactly MAX_IO_CHUNK - 5 = 63995 bytes: remainder write and frame terminator put under the same `if remainder:` - the terminator is never sent (variant of the round-1 C19 change, in the large-frame branch)",
+    "C06h": "a name the configuration does not allow, on an object that has BOTH `name` and `exposed_name` and no hooks of its own: the twin now unlocks the plain attribute itself instead of being what is accessed",
+    "C07h": "one request naming a DENIED attribute whose lookup is observable (property with side effects, __getattr__ hook): a 'friendlier diagnostics' hasattr(obj, name) on the refusal path runs the getter",
+    "C08h": "two threads: thread 1's request passes boxing but fails to encode (10**5000) after thread 2 has allocated the next sequence number: the failed number is 'handed back' by rewinding the connection-wide counter, the outstanding number is issued twice",
+    "C09h": "two failing requests served by two threads of the same side at once: the exception triple is parked in a per-connection attribute between the except clause and the send - request 1 is answered with request 2's exception",
+    "C11h": "a thread waits (no time-out) in serve()->poll() on a SocketStream connection while another thread of the same side closes it and the peer is busy: SocketStream.close() no longer calls shutdown(), and a bare close(fd) does not wake the poll",
+    "C13h": "two threads, no background server: the lock holder's poll times out with no data and leaves serve() WITHOUT notify_all (new 'wake_waiters' flag); the thread parked behind it sleeps through its reply until its own expiry",
+    "C14h": "a second thread that looks after the connection with poll()/poll_all()/.ready receives the waiter's reply: poll() got its own fast path that omits notify_all, the waiter parked in serve() is not woken",
+    "C16h": "ThreadPoolServer: a well-framed packet with bad content (corrupt zlib, garbage payload): the worker loop's catch-all narrowed to socket/select/EOF errors, each such packet kills one worker thread for good (visible at once with a one-worker pool)",
+    "C17h": "ForkingServer with two or more clients leaving at about the same time: the SIGCHLD handler's reap-all loop became a single waitpid - SIGCHLD is not queued, the other children stay zombies",
     "C18b": "register, advance the clock, re-register, advance: setdefault never refreshes the time stamp, live server pruned / wrong order",
 }
 
